@@ -128,10 +128,21 @@ MatchX(g, x, b) ==
 OkX(g, x) == MatchX(g, x, TRUE) \/ (g.rts[x] # NoRoute /\ g.rts[x].opt /\ MatchX(g, x, FALSE))
 Judged(g) == hasObs /\ ~g.taint /\ ~g.edge
 
+(* what an earlier session of R negotiated differs from what the CURRENT session negotiated (input-defined:
+   sticky accumulates the capabilities of all OPENs of R, caps is the last one) *)
+StickyDiffers(g) ==
+  LET s == g.sticky  c == g.caps IN
+    \/ s.gr # (cfg.gr /\ c.gr)
+    \/ \E f \in Fams : s.fams[f] # (cfg.gr /\ c.gr /\ c.fams[f])
+    \/ s.n # (cfg.gr /\ c.gr /\ cfg.notif /\ c.n)
+    \/ \E f \in Fams : s.llgr[f] # (IF cfg.gr /\ c.gr /\ cfg.llgr THEN c.llgr[f] ELSE 0)
+
 (* which clause of the property is being exercised for prefix x (names the verdict) *)
 Clause(g, x) ==
   LET r == g.rts[x] IN
   CASE g.last = "nonq_pfx"  -> "pfxlimit"
+    [] g.last = "failconn"  -> "failconn"
+    [] StickyDiffers(g) /\ (g.restarting \/ g.last \in {"nonq", "nonq_nogr", "qual", "qual2", "eor", "up"}) -> "sticky"
     [] g.last = "nonq_nogr" -> "nogr"
     [] g.last = "nonq"      -> "nonq"
     [] g.last = "qual"      -> "split"
@@ -144,8 +155,12 @@ Clause(g, x) ==
 
 Holds(g, cl) == Judged(g) => \A x \in Prefixes : Clause(g, x) = cl => OkX(g, x)
 
-(* [P] any loss other than the qualifying ones removes everything at once *)
-C12_PrefixLimitRemovesAll   == Holds(h, "pfxlimit")
+(* [P] any loss other than the qualifying ones removes everything at once; nothing of the UPDATE that broke
+   the limit is installed *)
+C12_PrefixLimitRemovesAll   == Holds(h, "pfxlimit") /\ ((Judged(h) /\ h.last = "nonq_pfx") => obs.extra = <<>>)
+(* [P] "a session with negotiated graceful restart": what THIS session negotiated decides whether and for
+   which families a loss is graceful, whether a NOTIFICATION qualifies, which End-of-RIBs are awaited *)
+C12_CurrentSessionCapsDecide == Holds(h, "sticky")
 C12_NoGrRemovesAll          == Holds(h, "nogr")
 C12_NonQualifyingRemovesAll == Holds(h, "nonq")
 (* [P] at a qualifying loss the GR families stay, marked stale, all others are removed at once *)
@@ -158,8 +173,9 @@ C12_LlgrDepreferencedAndRestricted == Holds(h, "llgr")
 (* [P] after re-establishment the stale routes go when End-of-RIB has arrived for every GR family (at once
    if there is none) *)
 C12_PurgeOnReestablish      == Holds(h, "reup")
-(* [P] stale routes live until the restart timer expires / the End-of-RIBs arrive - not shorter *)
-C12_PurgeNotEarly           == Holds(h, "early")
+(* [P] stale routes live, unchanged, until the restart timer expires / the End-of-RIBs arrive - not shorter;
+   a connection attempt that fails is not a re-establishment and changes nothing *)
+C12_PurgeNotEarly           == Holds(h, "early") /\ Holds(h, "failconn")
 (* [P] stale routes stay usable (in the table, advertised) and are marked stale *)
 C12_StaleUsableMarked       == Holds(h, "stale")
 (* [P] gone exactly at the restart-timer expiry / on all End-of-RIBs; re-announced routes are fresh *)
@@ -179,14 +195,15 @@ C12_DeferralWithholds ==
 
 (* ---- known findings: the same clauses judged against the history replayed with the deviations KF ---- *)
 HoldsK(cl) == Judged(k) => \A x \in Prefixes : Clause(h, x) = cl => OkX(k, x)
-C12_PrefixLimitRemovesAll_KF   == HoldsK("pfxlimit")
+C12_PrefixLimitRemovesAll_KF   == HoldsK("pfxlimit") /\ ((Judged(k) /\ h.last = "nonq_pfx") => (obs.extra = <<>> \/ k.over))
+C12_CurrentSessionCapsDecide_KF == HoldsK("sticky")
 C12_NoGrRemovesAll_KF          == HoldsK("nogr")
 C12_NonQualifyingRemovesAll_KF == HoldsK("nonq")
 C12_FamilySplit_KF             == HoldsK("split")
 C12_SecondLoss_KF              == HoldsK("second")
 C12_LlgrDepreferencedAndRestricted_KF == HoldsK("llgr")
 C12_PurgeOnReestablish_KF      == HoldsK("reup")
-C12_PurgeNotEarly_KF           == HoldsK("early")
+C12_PurgeNotEarly_KF           == HoldsK("early") /\ HoldsK("failconn")
 C12_StaleUsableMarked_KF       == HoldsK("stale")
 C12_PurgeExactlyWhen_KF        == HoldsK("purge")
 C12_NoForeignRoutes_KF         == Judged(k) => (obs.extra = <<>> \/ k.over)
@@ -198,6 +215,7 @@ C12_NoForeignRoutes_KF         == Judged(k) => (obs.extra = <<>> \/ k.over)
    organised without one TLC restart per failing trace.  The verdicts themselves are the invariants above. *)
 FirstBad ==
   CASE ~C12_PrefixLimitRemovesAll -> "C12_PrefixLimitRemovesAll"
+    [] ~C12_CurrentSessionCapsDecide -> "C12_CurrentSessionCapsDecide"
     [] ~C12_NoGrRemovesAll -> "C12_NoGrRemovesAll"
     [] ~C12_NonQualifyingRemovesAll -> "C12_NonQualifyingRemovesAll"
     [] ~C12_FamilySplit -> "C12_FamilySplit"
@@ -212,6 +230,7 @@ FirstBad ==
     [] OTHER -> ""
 FirstBadK ==
   CASE ~C12_PrefixLimitRemovesAll_KF -> "C12_PrefixLimitRemovesAll_KF"
+    [] ~C12_CurrentSessionCapsDecide_KF -> "C12_CurrentSessionCapsDecide_KF"
     [] ~C12_NoGrRemovesAll_KF -> "C12_NoGrRemovesAll_KF"
     [] ~C12_NonQualifyingRemovesAll_KF -> "C12_NonQualifyingRemovesAll_KF"
     [] ~C12_FamilySplit_KF -> "C12_FamilySplit_KF"
